@@ -5,7 +5,7 @@ PROP = "C01"
 LEANCHECK_MODULES = ["Ivy.L1.Machine", "Ivy.L1.Exec", "Ivy.Mon.C01", "Ivy.L1.ProofsC01", "Ivy.Props.C01"]
 FAMILIES = ['storm', 'mix']
 MONS = ['C01']
-SANS = ['heap-use-after-free', 'SEGV', 'double-free', 'attempting free']
+SANS = ['heap-use-after-free', 'SEGV', 'null-call', 'double-free', 'attempting free']
 RULE = ("scenario families ['storm', 'mix'] (see vlib/loopgen.py) rotating over the four poll methods and the fault configurations; every log is "
         "replayed through the Lean machine (every library record must be predicted) and through the Lean monitor(s) ['C01']; sanitizer "
         "classes counted as violations of this property: ['heap-use-after-free', 'SEGV', 'double-free', 'attempting free']. non-trivial = a handler unregistered (and the scenario then freed) an object other than itself, or a one-shot object was freed inside its own handler; distinct by hash of the log")
